@@ -35,7 +35,10 @@ let () =
   register "confetch" (fun tk -> match tk with
     | _ :: name :: _ -> with_file "confetch" name (fun _ -> obs "confetch differing=0")
     | _ -> failwith "confetch");
-  register "conhttp" (fun _ -> obs "conhttp differing=0 answered=14");
+  register "conhttp" (fun tk ->
+    (* rounds=N: the eight requests that read the file itself (all answered) *)
+    if List.exists (fun t -> String.length t > 7 && String.sub t 0 7 = "rounds=") tk
+    then obs "conhttp differing=0 answered=8" else obs "conhttp differing=0 answered=14");
   (* a handle whose Open had to wait sees the state of the last Sync from every page
      (Lock.run_serializable: it loads the disk only once it owns the lock); the holder's writes
      are not tracked by the model's file state: the observation is a self-comparison *)
@@ -68,6 +71,11 @@ let () =
 let () =
   (* a Create that has to wait for the lock touches nothing before it owns it (Lock.step_excl) *)
   register "recreatewait" (fun _ -> obs "recreatewait intact=true");
+  (* the age of a directory is nothing a read depends on *)
+  register "olddir" (fun _ -> obs "olddir ok");
+  register "rmfile" (fun tk -> match tk with
+    | [_; name] -> set_file name None; obs "rmfile ok"
+    | _ -> failwith "rmfile");
   (* item globbing gives the same names through a directory and through a server (Server.names_roundtrip:
      blanks and tabs are carried by the line protocol) *)
   register "cliwsitem" (fun _ -> obs "cliwsitem local=ok remote=ok")
